@@ -17,6 +17,12 @@
 (* chunk must be taken even if it pushes its producer over the limit.  RequestRateLimited is the variant   *)
 (* in which VerifyRemoteChunk itself enforces the limit: the valid response is refused for ever and        *)
 (* Served fails (kept for the sensitivity run of the design step).                                         *)
+(*                                                                                                         *)
+(* Local fault: failput = k means that the k-th write of a fetched chunk's pending record during this      *)
+(* Accept fails once (0 = never).  Every valid response leads to exactly one such write (all other kinds   *)
+(* are rejected before the store).  A failed store is one more reason to retry: nothing is appended.       *)
+(* RequestAppendBeforeStore is the variant that appends the response before storing it (the chunk then     *)
+(* appears twice); kept for the sensitivity run.                                                           *)
 EXTENDS Integers, Sequences, FiniteSets, TLC
 
 CONSTANTS Chunks, Kinds, Producers
@@ -30,15 +36,17 @@ VARIABLES have,      \* chunks retrievable from the acceptor's storage
           res,       \* result of the last finished Accept: "none" | "ok" | "err"
           prod,      \* producer of every chunk seen so far ("none" = not yet known)
           limit,     \* producer rate limit in chunks (configuration)
-          pend       \* chunks in the acceptor's pending map (subset of have; the others are accepted)
+          pend,      \* chunks in the acceptor's pending map (subset of have; the others are accepted)
+          failput,   \* which store of a fetched chunk fails during this Accept (0 = none)
+          nput       \* stores of fetched chunks attempted during this Accept
 
-avars == <<have, status, certs, idx, out, script, nreq, res, prod, limit, pend>>
+avars == <<have, status, certs, idx, out, script, nreq, res, prod, limit, pend, failput, nput>>
 
 PW(p) == Cardinality({c \in pend : prod[c] = p})
 
 AcceptInit(lim) ==
   /\ have = {} /\ status = "idle" /\ certs = <<>> /\ idx = 1 /\ out = <<>> /\ script = <<>> /\ nreq = 0 /\ res = "none"
-  /\ prod = [c \in Chunks |-> "none"] /\ limit = lim /\ pend = {}
+  /\ prod = [c \in Chunks |-> "none"] /\ limit = lim /\ pend = {} /\ failput = 0 /\ nput = 0
 
 (* resolve certificates from local storage as far as possible *)
 RECURSIVE Adv(_, _, _, _)
@@ -48,11 +56,11 @@ Store(c, p) ==     \* the chunk of producer p reaches local storage before the b
   /\ status = "idle" /\ have' = have \cup {c}
   /\ prod' = [prod EXCEPT ![c] = p]
   /\ pend' = pend \cup {c}
-  /\ UNCHANGED <<status, certs, idx, out, script, nreq, res, limit>>
+  /\ UNCHANGED <<status, certs, idx, out, script, nreq, res, limit, failput, nput>>
 
-AcceptCall(cs, ps, sc) ==          \* ps[i] = producer of cs[i]
+AcceptCall(cs, ps, sc, fp) ==      \* ps[i] = producer of cs[i]; fp = which store of a fetched chunk fails (0 = none)
   /\ status = "idle" /\ status' = "running"
-  /\ certs' = cs /\ script' = sc /\ nreq' = 0
+  /\ certs' = cs /\ script' = sc /\ nreq' = 0 /\ failput' = fp /\ nput' = 0
   /\ prod' = [c \in Chunks |-> IF \E i \in DOMAIN cs : cs[i] = c THEN ps[CHOOSE i \in DOMAIN cs : cs[i] = c] ELSE prod[c]]
   /\ LET a == Adv(cs, 1, <<>>, have) IN idx' = a[1] /\ out' = a[2]
   /\ UNCHANGED <<have, res, limit, pend>>
@@ -68,12 +76,29 @@ Request(want, kind) ==
   /\ status = "running" /\ idx <= Len(certs)
   /\ want = certs[idx] /\ kind = NextKind
   /\ script' = Pop /\ nreq' = nreq + 1
-  /\ IF kind = "valid"
+  /\ nput' = IF kind = "valid" THEN nput + 1 ELSE nput
+  /\ IF kind = "valid" /\ nput + 1 # failput
        THEN /\ have' = have \cup {want}
             /\ pend' = pend \cup {want}                          \* stored as pending whatever the limit says
             /\ LET a == Adv(certs, idx + 1, Append(out, want), have') IN idx' = a[1] /\ out' = a[2]
-       ELSE UNCHANGED <<have, idx, out, pend>>                 \* retry
-  /\ UNCHANGED <<status, certs, res, prod, limit>>
+       ELSE UNCHANGED <<have, idx, out, pend>>                 \* retry (bad response, or the local store failed)
+  /\ UNCHANGED <<status, certs, res, prod, limit, failput>>
+
+StoreFails == status = "running" /\ idx <= Len(certs) /\ NextKind = "valid" /\ nput + 1 = failput
+
+(* variant: the response is appended before it is stored, so a failed store leaves it in the result *)
+RequestAppendBeforeStore(want, kind) ==
+  /\ status = "running" /\ idx <= Len(certs)
+  /\ want = certs[idx] /\ kind = NextKind
+  /\ script' = Pop /\ nreq' = nreq + 1
+  /\ nput' = IF kind = "valid" THEN nput + 1 ELSE nput
+  /\ IF kind = "valid" /\ nput + 1 # failput
+       THEN /\ have' = have \cup {want}
+            /\ pend' = pend \cup {want}
+            /\ LET a == Adv(certs, idx + 1, Append(out, want), have') IN idx' = a[1] /\ out' = a[2]
+       ELSE IF kind = "valid" THEN out' = Append(out, want) /\ UNCHANGED <<have, idx, pend>>
+       ELSE UNCHANGED <<have, idx, out, pend>>
+  /\ UNCHANGED <<status, certs, res, prod, limit, failput>>
 
 (* variant: VerifyRemoteChunk enforces the producer limit on fetched chunks as well.  nreq stops counting  *)
 (* once the script is exhausted so that the endless retry is a finite lasso for TLC.                       *)
@@ -86,7 +111,7 @@ RequestRateLimited(want, kind) ==
             /\ pend' = pend \cup {want}
             /\ LET a == Adv(certs, idx + 1, Append(out, want), have') IN idx' = a[1] /\ out' = a[2]
        ELSE UNCHANGED <<have, idx, out, pend>>
-  /\ UNCHANGED <<status, certs, res, prod, limit>>
+  /\ UNCHANGED <<status, certs, res, prod, limit, failput, nput>>
 
 RequestAsOriginallyCoded(want, kind) ==
   /\ status = "running" /\ idx <= Len(certs)
@@ -95,17 +120,17 @@ RequestAsOriginallyCoded(want, kind) ==
   /\ IF kind = "valid" THEN status' = "failed" /\ UNCHANGED <<have, idx, out>>    \* falls through to ParseChunk(nil)
      ELSE IF kind = "wrong" THEN status' = "failed" /\ UNCHANGED <<have, idx, out>>
      ELSE UNCHANGED <<status, have, idx, out>>
-  /\ UNCHANGED <<certs, res, prod, limit, pend>>
+  /\ UNCHANGED <<certs, res, prod, limit, pend, failput, nput>>
 
 AcceptReturn ==                    \* SetMin saves the block's chunks as accepted: they stop being pending
   /\ status = "running" /\ idx > Len(certs)
   /\ status' = "idle" /\ res' = "ok"
   /\ pend' = pend \ {certs[i] : i \in DOMAIN certs}
-  /\ UNCHANGED <<have, certs, idx, out, script, nreq, prod, limit>>
+  /\ UNCHANGED <<have, certs, idx, out, script, nreq, prod, limit, failput, nput>>
 
 AcceptFail ==
   /\ status = "failed" /\ status' = "idle" /\ res' = "err"
-  /\ UNCHANGED <<have, certs, idx, out, script, nreq, prod, limit, pend>>
+  /\ UNCHANGED <<have, certs, idx, out, script, nreq, prod, limit, pend, failput, nput>>
 
 -----------------------------------------------------------------------------
 (* C35 *)
